@@ -5,6 +5,7 @@
 (*   [a |-> "SPLIT", raw, p |-> [div, attrchars, hasattrs, cmt, qq], lab, op, attr, args]               *)
 (*   [a |-> "PAIR",  raw, orig, p, lab, op, attr, args]   raw = a rewritten spelling of orig: additionally *)
 (*                   both spellings must be the same statement (SameStatement)                          *)
+(*   [a |-> "FILE",  data, lines]   whole file and the logical lines delivered (reader: ReadLnCont)       *)
 (*   [a |-> "RESET"]                                                                                    *)
 EXTENDS SourceLine, TLC, Json, IOUtils
 
@@ -19,12 +20,18 @@ SplitOK(e) == \E k \in 1..Len(e.p.qq) : Fields(Split(e.raw, PWith(e, e.p.qq[k]))
 PairOK(e)  == \E k \in 1..Len(e.p.qq) : /\ Fields(Split(e.raw, PWith(e, e.p.qq[k]))) = Logged(e)
                                          /\ SameStatement(e.orig, e.raw, PWith(e, e.p.qq[k]))
 
+\* [a |-> "FILE", data, lines]: the characters of a whole source file and the logical lines the assembler
+\* delivered for it in pass 1 (`line` hook events): ReadLnCont() applied again and again (buffer capacity carried
+\* along) yields exactly these lines; a file whose last line has no line end may be followed by one empty line
+FileOK(e) == LET fl == FileLines(e.data) IN e.lines = fl \/ e.lines = Append(fl, <<>>)
+
 TInit == l = 1
 TNext == /\ l <= Len(TraceLog)
          /\ LET e == TraceLog[l] IN
               CASE e.a = "RESET" -> TRUE
                 [] e.a = "SPLIT" -> SplitOK(e)
                 [] e.a = "PAIR"  -> PairOK(e)
+                [] e.a = "FILE"  -> FileOK(e)
                 [] OTHER -> FALSE
          /\ l' = l + 1
 Accepted == TLCGet("stats").diameter - 1 = Len(TraceLog)
